@@ -65,7 +65,7 @@ theorem moveOut_pre {s : State} (hw : WF s) {x r : Nat} {R : Rep} (hx : repOf s 
   unfold moveOut
   have hinvS : InvS ((weakNotify r s).setSlot x (some ⟨none, false⟩)) := by
     refine { repAlive := ?_, repUniq := ?_, connReg := ?_, cbsConn := ?cc, cbsNodup := ?_, parentOk := ?_,
-             trkReg := ?_, trkEnt := ?_, trkNodup := ?_, refOk := ?_, ownOk := ?_, nestOk := ?_, anonBound := ?_, repBound := ?_ }
+             trkReg := ?_, trkEnt := ?_, trkNodup := ?_, refOk := ?_, ownOk := ?_, nestOk := ?_, anonBound := ?_, repBound := ?_, ownCOk := ?_ }
     case cc =>
       intro q Q c hQ hcQ
       simp only [slotg_simp] at hQ ⊢
